@@ -296,12 +296,40 @@ class Builder:
         """A node for `s` followed by k.nxt, preceded by the inlined bodies
         of the calls it contains."""
         n = self.g.new(kind, s, fr, info)
-        n.succ.append((k.nxt if nxt is None else nxt, label))
         exprs = header_exprs(s) if exprs is None else exprs
+        if not self.contains_noreturn(exprs, fr):
+            n.succ.append((k.nxt if nxt is None else nxt, label))
         if self.may_raise(exprs, fr):
             for t in k.exc(None):
                 n.succ.append((t, 'e'))
         return self.inline_calls(exprs, n.id, k, fr, s)
+
+    def contains_noreturn(self, exprs, fr):
+        """Does the statement call a function that always raises (panic,
+        fail, read_only_writer, ...)?  Derived, not listed."""
+        for e in exprs:
+            if e is None:
+                continue
+            for call in calls_in_order(e):
+                tgt = self.resolve_call(call, fr)
+                if tgt is not None and self.noreturn(tgt.func, tgt.cls):
+                    return True
+        return False
+
+    def noreturn(self, func, cls):
+        cache = self.prog.__dict__.setdefault('_noreturn', {})
+        key = (func.qualname, cls.qualname if cls is not None else None)
+        if key not in cache:
+            cache[key] = False      # recursion guard
+            if func.is_generator or func.locked is not None:
+                return False
+            try:
+                sub = Builder(self.prog, max_depth=0)
+                g = sub.build(func, cls)
+                cache[key] = g.exit_return not in g.reachable()
+            except AnalysisError:
+                cache[key] = False
+        return cache[key]
 
     def inline_calls(self, exprs, entry, k, fr, stmt=None):
         calls = []
